@@ -165,7 +165,7 @@ def r3(ctx, v, prog, mod):
         for x in cfg.reach(c):
             if x.op == 'icmp' and x.pred in ('slt', 'sle', 'sgt', 'sge') and (('int', 0) in x.ops):
                 br = x.blk.ins[-1]
-                if br.op != 'br' or br.ops[0] != ('reg', x.res): continue
+                if br.op != 'br' or not br.ops or br.ops[0] != ('reg', x.res): continue
                 # which side is "negative"?
                 neg_true = (x.pred in ('slt', 'sle') and x.ops[1] == ('int', 0)) or (x.pred in ('sgt', 'sge') and x.ops[0] == ('int', 0))
                 t = br.targets[0] if neg_true else br.targets[1]
@@ -199,7 +199,7 @@ def r3(ctx, v, prog, mod):
             ok = False; why = ''
             for x in cmps:
                 br = x.blk.ins[-1]
-                if br.op != 'br' or br.ops[0] != ('reg', x.res): continue
+                if br.op != 'br' or not br.ops or br.ops[0] != ('reg', x.res): continue
                 eq_t, ne_t = (br.targets[0], br.targets[1]) if x.pred == 'eq' else (br.targets[1], br.targets[0])
                 retry = c in cfg.reach_from_block(fn.bmap[eq_t])
                 other = cfg.reach_from_block(fn.bmap[ne_t], avoid=[c])
@@ -216,8 +216,15 @@ def r3(ctx, v, prog, mod):
                     cleared = bool(clr) and c not in cfg.reach_from_block(fn.bmap[eq_t], avoid=clr)
                 if retry and fatal and cleared: ok = True; break
                 why = 'retry=%s fatal=%s clearerr-before-retry=%s' % (retry, fatal, cleared)
+            if ok and kind == 'fread':
+                # (4) the call is re-executed only when it transferred nothing: a retry after a short count would read over the
+                # bytes already stored at buf.  Every way back to the call must leave a test `result == 0` by its zero edge.
+                gate = _zero_gate(fn, cfg, c)
+                if gate is not None:
+                    rep.fail('C14.R3', key + ':retry-not-gated-by-zero-bytes', where(c), 'the fread call in yyread can be executed again %s: bytes that a short read had already '
+                             'delivered are overwritten by the retry and lost without a message [variant %s]' % (gate, v.name), variant=v.describe()); continue
             if ok: rep.ok('C14.R3', '%s yyread %s@%s: EINTR retried, other errors fatal' % (v.name, kind, c.line))
-            else: rep.fail('C14.R3', key + ':discipline', where(c), 'error handling after %s in yyread: %s [variant %s]' % (kind, why, v.name), variant=v.describe())
+            else: rep.fail('C14.R3', key + ':discipline', where(c), 'error handling after %s in yyread: %s [variant %s]' % (kind, why or 'no errno==EINTR test whose equal edge retries the call (after clearerr) and whose other edge is fatal', v.name), variant=v.describe())
         else:
             # getc loop: a call to ferror reachable from the getc whose true edge is fatal
             fe = [x for x in cfg.reach(c) if x.op == 'call' and x.callee == 'ferror']
@@ -246,6 +253,59 @@ def r3(ctx, v, prog, mod):
             if good: rep.ok('C14.R3', '%s yyread getc@%s: EOF&&ferror edge is fatal' % (v.name, c.line))
             else: rep.fail('C14.R3', key + ':ferror', where(c), 'getc loop in yyread: no ferror test whose true edge is fatal [variant %s]' % v.name, variant=v.describe())
     return n
+
+def _derives_from(fn, v, call, depth=0):
+    """v is the result of `call`, possibly through integer casts or one store/load round trip of a local"""
+    if v == ('reg', call.res): return True
+    if v[0] != 'reg' or depth > 4: return False
+    d = fn.def_of(v)
+    if d is None: return False
+    if d.op in ('trunc', 'sext', 'zext'): return _derives_from(fn, d.ops[0], call, depth + 1)
+    if d.op == 'load':
+        sts = [x for x in fn.ins if x.op == 'store' and x.ops[1] == d.ops[0]]
+        return bool(sts) and all(_derives_from(fn, x.ops[0], call, depth + 1) for x in sts)
+    return False
+
+def _zero_gate(fn, cfg, c):
+    """None if every path from call c back to c leaves some test of c's result against 0 by its zero edge; otherwise a
+    description of the ungated way back."""
+    tests = []
+    for x in cfg.reach(c):
+        if x.op != 'icmp' or ('int', 0) not in x.ops: continue
+        o = x.ops[0] if x.ops[1] == ('int', 0) else x.ops[1]
+        if not _derives_from(fn, o, c): continue
+        br = x.blk.ins[-1]
+        if br.op != 'br' or not br.ops or br.ops[0] != ('reg', x.res) or len(br.targets) != 2: continue
+        if x.pred == 'eq': zero_t, non_t = br.targets
+        elif x.pred == 'ne': non_t, zero_t = br.targets
+        elif x.pred in ('sle', 'ule') and x.ops[1] == ('int', 0): zero_t, non_t = br.targets
+        elif x.pred in ('sgt', 'ugt') and x.ops[1] == ('int', 0): non_t, zero_t = br.targets
+        else: continue
+        tests.append((x, fn.bmap[zero_t], fn.bmap[non_t]))
+    if not tests: return 'without any test of its result against 0'
+    # paths that leave a test by its non-zero edge must not come back to the call.  The edge into a block whose own branch
+    # condition is a phi with a constant for that edge (the IR of `a && b`) continues only along the side the constant selects.
+    def after_edge(pred, blk):
+        t = blk.ins[-1]
+        if t.op == 'br' and t.ops and len(t.targets) == 2:
+            d = fn.def_of(t.ops[0])
+            if d is not None and d.op == 'phi' and d.blk is blk:
+                for val, lab in zip(d.ops, d.cases):
+                    if fn.bmap.get(lab) is pred and val in (('int', 0), ('int', 1), ('bool', False), ('bool', True), ('false',), ('true',)):
+                        truth = val in (('int', 1), ('bool', True), ('true',))
+                        return [fn.bmap[t.targets[0] if truth else t.targets[1]]]
+        return None
+    blocked = {(x.blk, non) for x, z, non in tests}
+    for x, z, non in tests:
+        nxt = after_edge(x.blk, non)
+        starts = nxt if nxt is not None else [non]
+        for b in starts:
+            if c in cfg.reach_from_block(b, edge_filter=lambda p_, t_: (p_, t_) not in blocked) or c.blk is b:
+                return 'after a read that returned a non-zero count (test at line %s)' % x.line
+    # and no way back that avoids every test
+    if c in cfg.reach(c, avoid=[x for x, _, _ in tests]): return 'on a path that does not test its result against 0'
+    return None
+
 
 # ---------------------------------------------------------------- R4
 
